@@ -10,7 +10,7 @@ TRUSTED = ["CBMC 6.11 C semantics and uninterpreted-function (Ackermann) encodin
            "spec models in harness/*_spec.h (validated by native replay mode against the real primitives in bin/setup)",
            "composition argument G and K => property (DESIGN.md section 0)"]
 ASSUMPTIONS = ["mlen, adlen in the enumerated sets", "cores are pure functions of the inputs named in stubs/ideal.h"]
-OUTSIDE = ["AES-256-GCM functional correctness (GHASH algebra)", "AEGIS AES-NI units", "lengths above the bounds",
+OUTSIDE = ["AES-256-GCM functional correctness (GHASH algebra)", "AEGIS AES-NI units", "AEGIS Init phase vs the draft (no verdict in 20 min); the AES round itself (abstract here)", "lengths above the bounds",
            "SIMD/asm back ends of the cores (see C03/C04/C10)"]
 
 
@@ -59,4 +59,30 @@ def obligations(tier):
                               tier="quick" if q else "thorough", family="box-seal-" + SBNAME[v],
                               desc="crypto_box easy/detached/afternm (part 1), recipient round trips under DH commutativity (2), NaCl padded form (3), sealed box layout/nonce/round trip (4) == secretbox spec under beforenm key",
                               bounds="all secret keys/nonce/message/ephemeral bytes; mlen enumerated (quick 7 values, thorough 0..48)"))
+    for ag in (256, 128):
+        rate = 16 if ag == 256 else 32
+        an = "256" if ag == 256 else "128l"
+        # each instance costs 2-5 min of SAT time (1.2 M variables): the quick tier takes one shape that crosses the
+        # rate with a partial tail block; the thorough tier the boundary grid
+        qm = (rate + 1,)
+        qa = (1,)
+        tm = (0, 1, rate - 1, rate, rate + 1, 2 * rate, 2 * rate + 7)
+        ta = (0, 1, rate, rate + 1)
+        ms, als = (sorted(set(tm)), list(ta)) if tier == "thorough" else (list(qm), list(qa))
+        for ml in ms:
+            for al in als:
+                q = ml in qm and al in qa
+                obs.append(Ob("aegis%s-spec-m%d-a%d" % (an, ml, al), "C01/aegis.c",
+                              units=AEGIS_UNITS[ag] + GLUE_UNITS, stubs=AEGIS_STUBS, instrument=AEGIS_CUTS[ag], object_bits=12, defs={"AEGIS": ag, "MLEN": ml, "ADLEN": al, "PART": 0},
+                              unwind=110, timeout=2400, mem=8, tier="quick" if q else "thorough", family="aegis%s-soft" % an,
+                              desc="AEGIS portable implementation over an abstract AES round: output == draft-irtf-cfrg-aegis-aead, combined == detached, decrypt(encrypt(m)) == m",
+                              bounds="all key/nonce/message/ad/tag bytes; (mlen, adlen) enumerated around the rate (16 bytes for AEGIS-256, 32 for AEGIS-128L)"))
+    for ag in (256, 128):
+        an = "256" if ag == 256 else "128l"
+        # PART 2 (Init == spec: 96 resp. 80 rounds on each side) gave no verdict in 20 min with R uninterpreted: not registered
+        for part, nm in ((3, "finalize"),):
+            obs.append(Ob("aegis%s-%s" % (an, nm), "C01/aegis.c", units=AEGIS_UNITS[ag] + GLUE_UNITS, stubs=AEGIS_STUBS,
+                          defs={"AEGIS": ag, "MLEN": 1, "ADLEN": 1, "PART": part}, object_bits=12, unwind=40, timeout=1200, mem=8, family="aegis%s-soft" % an,
+                          desc="AEGIS %s phase == draft specification over an abstract AES round" % nm,
+                          bounds="all keys/nonces (init) resp. arbitrary state and all lengths < 2^61 bytes (finalize)"))
     return obs
